@@ -1528,6 +1528,8 @@ def frequent_directions_update(old_stats_factor: chex.Array, g: chex.Array,
   """
   del old_stats_factor, w1, w2
   x = jnp.reshape(jnp.moveaxis(g, axis, 0), (g.shape[axis], -1))
+  # The statistics are float32 (jnp.linalg.qr rejects half precision inputs).
+  x = x.astype(jnp.float32)
   # Let d be the dimension of x.shape[0].
   # Then x @ x.T == tensordot(G, G, axes=(except_i, except_i)).
   # Suppose x.T == q @ r with q orthonormal
@@ -3609,16 +3611,20 @@ def distributed_shampoo(
 
     lr = learning_rate
     if callable(learning_rate):
-      lr = learning_rate(step)
+      # As optax.scale_by_schedule does: the step size takes the update's dtype.
+      lr = jnp.asarray(learning_rate(step), dtype=grad.dtype)
 
     preconditioner_multiplier = lr if not decoupled_learning_rate else 1.0
     grafting_update = grafting_update * preconditioner_multiplier
 
     precond_grad = grad
     if not _skip_preconditioning(param):
+      # The preconditioners are float32; keep the update, and with it the momentum
+      # buffers that init_fn allocates as zeros_like(param), in the gradient's dtype.
       precond_grad = preconditioner.preconditioned_grad(
           precond_grad,
-          _maybe_dequantize_preconditioners(state.preconditioners))
+          _maybe_dequantize_preconditioners(state.preconditioners)).astype(
+              grad.dtype)
     else:
       if graft_type == GraftingType.NONE:
         logging.error("skipping preconditioning without grafting for param %s",
